@@ -42,6 +42,9 @@ type caseC17 struct {
 	SingleP bool `json:"single_p,omitempty"`
 	// Arch386: the program is built for a 32-bit platform (GOARCH=386 binaries run natively on amd64).
 	Arch386 bool `json:"arch386,omitempty"`
+	// DeadStderr: the program's stderr is a pipe whose reader has gone away (a supervisor restarted, `prog 2>&1 | head -1`): a
+	// hashing call that writes anything to it is killed by SIGPIPE. The result is read from stdout.
+	DeadStderr bool `json:"dead_stderr,omitempty"`
 }
 
 var importPool = []string{"fmt", "os", "strings", "encoding/hex", "math/big", "crypto/rand", "crypto/sha512", "crypto/md5", "hash/fnv",
@@ -102,6 +105,8 @@ func init() {
 const mainTemplate = `package main
 
 import (
+	"os"
+
 	secp "github.com/bytemare/secp256k1"
 %s)
 
@@ -137,7 +142,7 @@ func main() {
 	for _, c := range out {
 		b = append(b, digits[c>>4], digits[c&15])
 	}
-	print("RESULT=", string(b), "\n")
+	os.Stdout.WriteString("RESULT=" + string(b) + "\n") // (stdout: stderr may be a dead pipe)
 }
 `
 
@@ -163,7 +168,7 @@ func runC17(c caseC17, o *gen.Obs) error {
 	o.ClassIf(otherLinks, "sha256-linked-by-others")
 	o.ClassIf(c.Wrap, "registry-replaced")
 	o.ClassIf(c.Rejected > 0, "after-rejected-calls")
-	o.NonTrivialIf(!otherLinks || c.Wrap || c.Rejected > 0 || c.SingleP || c.Arch386)
+	o.NonTrivialIf(!otherLinks || c.Wrap || c.Rejected > 0 || c.SingleP || c.Arch386 || c.DeadStderr)
 
 	dir, err := os.MkdirTemp("", "verif-c17-")
 	if err != nil {
@@ -205,6 +210,16 @@ func runC17(c caseC17, o *gen.Obs) error {
 	if c.SingleP {
 		run.Env = append(os.Environ(), "GOMAXPROCS=1")
 		o.Class("single-p")
+	}
+	if c.DeadStderr {
+		pr, pw, perr := os.Pipe()
+		if perr != nil {
+			return &gen.Inconclusive{Msg: perr.Error()}
+		}
+		pr.Close() // nobody reads: a write to fd 2 raises SIGPIPE
+		defer pw.Close()
+		run.Stderr = pw
+		o.Class("dead-stderr")
 	}
 	rerr := run.Run()
 	if ctx.Err() != nil {
@@ -259,6 +274,7 @@ var c17 = gen.Register(&gen.Check[caseC17]{
 		c.Wrap = gen.Chance(t, "wrap", 1, 4)
 		c.SingleP = gen.Chance(t, "singleP", 1, 3)
 		c.Arch386 = gen.Chance(t, "arch386", 1, 4)
+		c.DeadStderr = gen.Chance(t, "deadStderr", 1, 4)
 		if gen.Chance(t, "rejected", 1, 3) {
 			c.Rejected = rapid.SampledFrom([]int{1000, 70, 3, 300}).Draw(t, "nrej")
 		}
@@ -289,6 +305,8 @@ var c17 = gen.Register(&gen.Check[caseC17]{
 			{Fn: "HashToGroup", Msg: "616263", Dst: dst, Wrap: true},
 			{Fn: "HashToGroup", Msg: "616263", Dst: dst, SingleP: true}, {Fn: "EncodeToGroup", Msg: "616263", Dst: dst, SingleP: true},
 			{Fn: "HashToScalar", Msg: "616263", Dst: dst, SingleP: true},
+			{Fn: "HashToGroup", Msg: "616263", Dst: "01", DeadStderr: true}, {Fn: "HashToScalar", Msg: "616263", Dst: dst, DeadStderr: true},
+			{Fn: "EncodeToGroup", Msg: "", Dst: hex.EncodeToString(bytes.Repeat([]byte{'x'}, 300)), DeadStderr: true},
 			{Fn: "HashToGroup", Msg: "616263", Dst: dst, Arch386: true}, {Fn: "HashToScalar", Msg: "616263", Dst: dst, Arch386: true},
 			{Fn: "EncodeToGroup", Msg: "616263", Dst: dst, Rejected: 1000},
 			boundaryProgram("HashToGroup", 256, 0), boundaryProgram("HashToScalar", 256, 1), boundaryProgram("EncodeToGroup", 512, 0),
@@ -298,7 +316,7 @@ var c17 = gen.Register(&gen.Check[caseC17]{
 			{Fn: "HashToScalar", Msg: "616263", Dst: dst, Wrap: true, Imports: []string{"fmt"}},
 		}
 	},
-	Required: []string{"imports:none", "sha256-not-linked-by-others", "registry-replaced", "after-rejected-calls", "single-p", "goarch=386"},
+	Required: []string{"imports:none", "sha256-not-linked-by-others", "registry-replaced", "after-rejected-calls", "single-p", "goarch=386", "dead-stderr"},
 	Run:      runC17,
 })
 
